@@ -39,6 +39,13 @@ Definition report_run (spec : pstate -> list (string * form)) (ops : list op) : 
   | RunUnsup i => ["RUN unsup " ++ show_nat i]
   end.
 
+(* the same with extra information lines about the reached state (structural hypotheses of theorems) *)
+Definition report_run2 (spec : pstate -> list (string * form)) (info : pstate -> list string) (ops : list op) : list string :=
+  match run ops with
+  | RunOk (Some st) => "RUN ok" :: info st ++ report_state st (spec st)
+  | _ => report_run spec ops
+  end.
+
 (* ------------------------------------------------------------------ *)
 (* Confirmation of a candidate violation inside Coq: the valuation is given
    by printed variable names (the names z3 reports) *)
